@@ -255,9 +255,9 @@ pub open spec fn origin_form_result(target: Seq<u8>, hs: Seq<VStr>, ok: bool, ho
 pub open spec fn lit_host_name() -> Seq<u8> { seq![104u8, 111u8, 115u8, 116u8] }                                  // "host"
 // splitting a header line at its first colon: the name is `host` (any capitalisation) exactly when the line is a Host header,
 // and then the value starts at byte 5
-pub proof fn lemma_split_host(h: Seq<u8>, p: int)
+pub broadcast proof fn lemma_split_host(h: Seq<u8>, p: int)
     requires 0 <= p < h.len(), h[p] == 0x3A, forall|j: int| 0 <= j < p ==> h[j] != 0x3A
-    ensures (lower(h.subrange(0, p)) == lower(lit_host_name())) == is_host_ci(h),
+    ensures (#[trigger] lower(h.subrange(0, p)) == lower(lit_host_name())) == is_host_ci(h),
             is_host_ci(h) ==> p == 4
 {
     let name = h.subrange(0, p);
